@@ -7,6 +7,8 @@ Line protocol for C14 (Float, bit patterns `x<16 hex>`):
   destination particle; `nb` is the flat list of neighbour records, 10 doubles
   each: `w dw0 dw1 dw2 sx sy sz m rho f`, in the order the evaluator visits them.
   Answer `val <f>`.
+* `pt method=sphc tol=<f> gain=<f> nb=<fl>` — the probe equation with array
+  constants (`rho` of a record = `s_rho0[0]` of its array, `gain` = `d_gain[0]`).
 * `pt method=order1 tol=<f> dim=<1|2|3> d=<x,y,z> nb=<fl>` — answer
   `val <4 doubles> mom <16 doubles> psph <4 doubles>`.
 * `post tol=<f> dim=<n> a=<16 doubles> b=<4 doubles>` — `post_loop` of order1 on
@@ -17,16 +19,24 @@ Line protocol for C14 (Float, bit patterns `x<16 hex>`):
   (`n` doubles per name, concatenated in the order of `names`) and whose
   `temp_prop` holds `old` before the call.  Answer `temp <fl>`: the contents of
   `temp_prop` afterwards.
-* `R shape=<nats> strides=<ints> offset=<int> buf=<fl>` — `a.ravel()` of the numpy
+* `R dtype=<f64|f32|i64|i32> shape=<nats> strides=<ints> offset=<int> buf=<fl>` — `a.ravel()` of the numpy
   array with that shape, strides and offset (in elements) over the memory `buf`;
   answer `flat <fl>`: the coordinates of the target particles in particle order.
+  The array has dtype `dtype` (`buf` is a list of
+  integers for `i64`/`i32`, of doubles that are float32 values for `f32`) and the
+  answer lists the DOUBLE coordinates `get_particle_array` makes of it.
+* `H dtype=<f64|f32|i64|i32> n=<nat> lens=<nats> h=<fl>` — `_create_particle_array`'s
+  `h = hmax*np.ones_like(xr)` for `n` points whose coordinate array has that
+  dtype, `hmax = _get_max_h_in_arrays()` over source arrays whose real-particle
+  `h` lists (lengths `lens`) are concatenated in `h`.  Answer `h <fl>` (n
+  doubles), or `raise` when a source array has no real particle.
 * `U shape=<nats> flat=<fl>` — `result = flat.copy(); result.shape = shape;
   result.squeeze()`: answer `res <fl>`, the entries of the returned array listed
   in row-major order of ITS (squeezed) shape.
 * bindings (stateful): `B init arrays=<nats> pts=<nat>`, `B setpts p=<nat>`,
   `B updarr arrays=<nats>`, `B update`, `B mutate o=<nat>`, and for SPHEvaluator `B initeval objs=<nats>`,
   `B evalupdarr objs=<nats>`; each answers
-  `filled=<nats> evaluated=<nats> binned=<nats> result=<nat> current=<true|false>`.
+  `filled=<nats> evaluated=<nats> binned=<nats> result=<nat> consts=<nats> current=<true|false>`.
 -/
 namespace PysphVerif.Driver.C14
 open PysphVerif.Wire PysphVerif.Interp
@@ -50,6 +60,10 @@ def handlePt (kv : List (String × String)) : String :=
     else if meth = "splash" then "val " ++ showFloatBits (splash nbrs)
     else if meth = "splash_norm" then "val " ++ showFloatBits (splashNorm tol nbrs)
     else if meth = "rho" then "val " ++ showFloatBits (summationDensity nbrs)
+    else if meth = "sphc" then
+      match (lookup kv "gain") >>= parseFloatBits? with
+      | some gain => "val " ++ showFloatBits (sphConst gain nbrs)
+      | none => "bad-op"
     else if meth = "order1" then
       match (lookup kv "dim") >>= parseNat?, (lookup kv "d") >>= parseList? parseFloatBits? with
       | some dim, some [x, y, z] =>
@@ -96,20 +110,75 @@ def handleS (kv : List (String × String)) : String :=
       "temp " ++ showFl (t 0)
   | _, _, _, _, _ => "bad-op"
 
+/-- every element of the view lies inside a buffer of `len` entries -/
+def viewInside (sh : List Nat) (st : List Int) (off : Int) (len : Nat) : Bool :=
+  (allIndices sh).all (fun idx =>
+    let m := off + memOffset st idx
+    decide (0 ≤ m) && decide (m.toNat < len))
+
 def handleR (kv : List (String × String)) : String :=
   match (lookup kv "shape") >>= parseList? parseNat?,
         (lookup kv "strides") >>= parseList? parseInt?,
-        (lookup kv "offset") >>= parseInt?,
-        (lookup kv "buf") >>= parseList? parseFloatBits? with
-  | some sh, some st, some off, some buf =>
+        (lookup kv "offset") >>= parseInt?, lookup kv "dtype" with
+  | some sh, some st, some off, some dt =>
     if st.length ≠ sh.length then "bad-op" else
-    let v : NdView Float := { shape := sh, strides := st, offset := off, buf := buf }
-    -- every element must lie inside the buffer (no silent default)
-    if (allIndices sh).all (fun idx =>
-        let m := off + memOffset st idx
-        decide (0 ≤ m) && decide (m.toNat < buf.length)) then
-      "flat " ++ showFl (ravelC v)
+    if dt = "f64" then
+      match (lookup kv "buf") >>= parseList? parseFloatBits? with
+      | some buf =>
+        -- every element must lie inside the buffer (no silent default)
+        if viewInside sh st off buf.length then
+          let v : NdView Float := { shape := sh, strides := st, offset := off, buf := buf }
+          "flat " ++ showFl (castRavel (fun x => x) v)
+        else "bad-op"
+      | none => "bad-op"
+    else if dt = "f32" then
+      match (lookup kv "buf") >>= parseList? parseFloatBits? with
+      | some buf =>
+        -- the buffer must hold float32 values
+        if buf.all (fun x => x.toFloat32.toFloat.toBits == x.toBits) ∧ viewInside sh st off buf.length then
+          let v : NdView Float32 :=
+            { shape := sh, strides := st, offset := off, buf := buf.map Float.toFloat32 }
+          "flat " ++ showFl (castRavel Float32.toFloat v)
+        else "bad-op"
+      | none => "bad-op"
+    else if dt = "i64" ∨ dt = "i32" then
+      match (lookup kv "buf") >>= parseList? parseInt? with
+      | some buf =>
+        if viewInside sh st off buf.length then
+          let v : NdView Int := { shape := sh, strides := st, offset := off, buf := buf }
+          "flat " ++ showFl (castRavel Float.ofInt v)
+        else "bad-op"
+      | none => "bad-op"
     else "bad-op"
+  | _, _, _, _ => "bad-op"
+
+/-- split `l` into consecutive chunks of the given lengths; `none` unless the
+lengths add up to `l.length` -/
+def splitLens : List Nat → List Float → Option (List (List Float))
+  | [], [] => some []
+  | [], _ :: _ => none
+  | n :: ns, l =>
+    if l.length < n then none
+    else (splitLens ns (l.drop n)).map (fun t => l.take n :: t)
+
+def handleH (kv : List (String × String)) : String :=
+  match lookup kv "dtype", (lookup kv "n") >>= parseNat?,
+        (lookup kv "lens") >>= parseList? parseNat?,
+        (lookup kv "h") >>= parseList? parseFloatBits? with
+  | some dt, some n, some lens, some h =>
+    match splitLens lens h with
+    | none => "bad-op"
+    | some hs =>
+      let ans : Option (Option (List Float)) :=
+        if dt = "f64" then some (createTargetH (fun x : Float => x) hs (List.replicate n 0))
+        else if dt = "f32" then some (createTargetH Float32.toFloat hs (List.replicate n 0))
+        else if dt = "i64" ∨ dt = "i32" then
+          some (createTargetH Float.ofInt hs (List.replicate n (0 : Int)))
+        else none
+      match ans with
+      | none => "bad-op"
+      | some none => "raise"
+      | some (some l) => "h " ++ showFl l
   | _, _, _, _ => "bad-op"
 
 def sequenceOpt {α : Type} : List (Option α) → Option (List α)
@@ -132,7 +201,7 @@ def showNats (l : List Nat) : String := showList toString l
 
 def showReads (s : IState) : String :=
   let r := interpolateReads s
-  s!"filled={showNats r.filled} evaluated={showNats r.evaluated} binned={showNats r.binned} result={r.result} current={r.neighboursCurrent}"
+  s!"filled={showNats r.filled} evaluated={showNats r.evaluated} binned={showNats r.binned} result={r.result} consts={showNats r.constants} current={r.neighboursCurrent}"
 
 def handleB (st : Option IState) (toks : List String) : Option IState × String :=
   match toks with
@@ -171,6 +240,7 @@ def handle (st : Option IState) (line : String) : Option IState × String :=
   | "S" :: rest => (st, handleS (kvs rest))
   | "R" :: rest => (st, handleR (kvs rest))
   | "U" :: rest => (st, handleU (kvs rest))
+  | "H" :: rest => (st, handleH (kvs rest))
   | "B" :: rest => handleB st rest
   | _ => (st, "bad-op")
 
